@@ -601,6 +601,117 @@ func runC20(cfg Config) {
 			}
 		}
 	}
+	// one chunk object travelling through stores of both formats, in both orders (what `cache`, `chop` and a
+	// chunk server with a cache do with the chunk they hold)
+	for it := 0; it < cfg.N(150, 3000); it++ {
+		data := randBytes(rng, 1+rng.Intn(3000))
+		if rng.Intn(3) == 0 {
+			data = bytes.Repeat([]byte{byte(rng.Intn(256))}, 1+rng.Intn(20000)) // compresses well: the two forms differ a lot
+		}
+		d2 := filepath.Join(cfg.Work, "both-formats")
+		os.RemoveAll(d2)
+		os.MkdirAll(d2, 0755)
+		c2, _ := desync.NewLocalStore(d2, desync.StoreOptions{})
+		u2, _ := desync.NewLocalStore(d2, desync.StoreOptions{Uncompressed: true})
+		var ch *desync.Chunk
+		origin := rng.Intn(3)
+		switch origin {
+		case 0:
+			ch = desync.NewChunk(data)
+		case 1:
+			ch, _ = desync.NewChunkWithID(desync.Digest.Sum(data), data, false)
+		default: // read back from a store of one format
+			src := []desync.LocalStore{c2, u2}[rng.Intn(2)]
+			src.StoreChunk(desync.NewChunk(data))
+			ch, _ = src.GetChunk(desync.Digest.Sum(data))
+		}
+		if ch == nil {
+			continue
+		}
+		order := []desync.LocalStore{c2, u2}
+		uncFirst := rng.Intn(2) == 0
+		if uncFirst {
+			order = []desync.LocalStore{u2, c2}
+		}
+		times := 1 + rng.Intn(2)
+		for t := 0; t < times; t++ {
+			for _, st := range order {
+				if err := st.StoreChunk(ch); err != nil {
+					monitor("StoreChunk failed for a chunk travelling between formats: "+err.Error(), "travel", "")
+				}
+			}
+		}
+		id := ch.ID()
+		sid := hx(id[:])
+		caseLine := fmt.Sprintf("travel origin=%d firstUncompressed=%v len=%d data=%s", origin, uncFirst, len(data), hx(data))
+		rep.Count(caseLine, len(data) >= 2, "travel")
+		bu, _ := os.ReadFile(filepath.Join(d2, sid[:4], sid))
+		bc, _ := os.ReadFile(filepath.Join(d2, sid[:4], sid+".cacnk"))
+		if !bytes.Equal(bu, data) {
+			monitor(fmt.Sprintf("after one chunk object was stored into both formats, the uncompressed file holds %d bytes that are not the chunk's plain data (%d bytes)", len(bu), len(data)), caseLine, "")
+		}
+		if dd, err := desync.Decompress(nil, bc); err != nil || !bytes.Equal(dd, data) {
+			monitor("after one chunk object was stored into both formats, the .cacnk file does not decode to the chunk", caseLine, "")
+		}
+		for _, st := range []desync.LocalStore{c2, u2} {
+			g, err := st.GetChunk(id)
+			if err != nil {
+				monitor("a store cannot read back its own format after a chunk object travelled through both formats: "+err.Error(), caseLine, "")
+			} else if gd, err := g.Data(); err != nil || !bytes.Equal(gd, data) {
+				monitor("a store delivers different data after a chunk object travelled through both formats", caseLine, "")
+			}
+		}
+	}
+	// concurrent writers of the same IDs in both formats into one directory
+	for it := 0; it < cfg.N(40, 600); it++ {
+		d3 := filepath.Join(cfg.Work, "mixed-writers")
+		os.RemoveAll(d3)
+		os.MkdirAll(d3, 0755)
+		c3, _ := desync.NewLocalStore(d3, desync.StoreOptions{})
+		u3, _ := desync.NewLocalStore(d3, desync.StoreOptions{Uncompressed: true})
+		var datas [][]byte
+		for k := 0; k < 3; k++ {
+			datas = append(datas, bytes.Repeat([]byte{byte(k + 1)}, 20000+rng.Intn(40000)))
+		}
+		var wg sync.WaitGroup
+		var failed sync.Map
+		for w := 0; w < 8; w++ {
+			wg.Add(1)
+			st := []desync.LocalStore{c3, u3}[w%2]
+			go func() {
+				defer wg.Done()
+				for r := 0; r < 6; r++ {
+					for _, d := range datas {
+						if err := st.StoreChunk(desync.NewChunk(d)); err != nil {
+							failed.Store(err.Error(), true)
+						}
+					}
+				}
+			}()
+		}
+		wg.Wait()
+		caseLine := fmt.Sprintf("mixed-writers it=%d", it)
+		rep.Count(caseLine, true, "mixed-writers")
+		failed.Range(func(k, v interface{}) bool {
+			monitor("StoreChunk failed while writers of both formats stored the same chunk: "+k.(string), caseLine, "")
+			return true
+		})
+		for _, d := range datas {
+			id := desync.Digest.Sum(d)
+			sid := hx(id[:])
+			bu, _ := os.ReadFile(filepath.Join(d3, sid[:4], sid))
+			bc, _ := os.ReadFile(filepath.Join(d3, sid[:4], sid+".cacnk"))
+			if !bytes.Equal(bu, d) {
+				monitor("concurrent writers of both formats: the uncompressed file does not hold the raw bytes", caseLine, "")
+			}
+			if dd, err := desync.Decompress(nil, bc); err != nil || !bytes.Equal(dd, d) {
+				monitor("concurrent writers of both formats: the .cacnk file does not decode to the chunk", caseLine, "")
+			}
+		}
+		if hangs > 0 || rep.Histogram["DISAGREE:monitor"] > 5 {
+			break
+		}
+	}
 	// prune one format with nothing referenced: the other format must survive completely
 	before := listStore(root)
 	if err := cs.Prune(context.Background(), map[desync.ChunkID]struct{}{}); err != nil {
